@@ -24,7 +24,7 @@ META = dict(
     technique='runtime monitoring: transport-boundary monitor with independent '
               'XML oracle (lxml well-formedness + DSP0203 DTD validation, XML 1.0 '
               'Char check, recursive embedded-object validation) and '
-              'header/body consistency oracle',
+              'header/body consistency oracle; thorough tier also applies the same oracle to the CIM objects that the repository\'s own unit tests construct (harvested by a sys.monitoring PY_RETURN hook on the constructors)',
     level_text='Every one of the 41 public operation methods is called with '
                'seeded arguments of every accepted shape (str / CIMClassName / '
                'CIMInstanceName names, generated instances, classes, qualifier '
